@@ -57,6 +57,22 @@ pub fn cells(tier: Tier) -> Vec<CellPlan> {
         c.rounds = if q { 3 } else { 4 };
         v.push(plan(c, if q { 2 } else { 3 }, 1.0));
     }
+    // Entities without any replicated component that exist before a client is authorized.
+    for (name, auth) in [("empty-protocol", Auth::ProtocolCheck), ("empty-none", Auth::None)] {
+        let mut c = cell(name, auth, false);
+        c.init = vec![Op::Spawn(0, (1 << TA) | (1 << TB)), Op::Spawn(1, 0)];
+        c.alphabet = vec![
+            EvOp::Nop,
+            EvOp::Connect(1),
+            EvOp::World(Op::Spawn(2, 0)),
+            EvOp::World(Op::Ins(1, TA)),
+            EvOp::World(Op::Despawn(1)),
+            EvOp::EmitS(SK::E1, Mode::Broadcast, None),
+            EvOp::Disconnect(1),
+        ];
+        c.rounds = if q { 3 } else { 4 };
+        v.push(plan(c, if q { 1 } else { 2 }, 1.0));
+    }
     // Entities holding periodically replicated and send-once components: a client that
     // authorizes late must still receive them in full.
     for (name, auth) in [("rates-protocol", Auth::ProtocolCheck), ("rates-custom", Auth::Custom)] {
